@@ -1,4 +1,5 @@
 import PqlModel.Props.C01
+import PqlModel.Props.C01Syntactic
 import PqlModel.Props.C01LexRender
 import PqlModel.Props.C01Sem
 #print axioms Pql.C01.C01_parens_write
@@ -20,3 +21,8 @@ import PqlModel.Props.C01Sem
 #print axioms Pql.LexRender.lexRender_of_adj_top
 #print axioms Pql.C01.C01_eq_never_null
 #print axioms Pql.C01.C01_ne_never_null
+#print axioms Pql.C01.C01_parse_roundtrip_partial
+#print axioms Pql.C01.C01_parse_roundtrip_whole
+#print axioms Pql.C01.C01_parse_roundtrip_anyfuel
+#print axioms Pql.C01.C01_operand_is_unit
+#print axioms Pql.C01.C01_counterexample_Not
